@@ -1,7 +1,7 @@
 import TracklibVerif.Lemmas.ExprRpn
 import TracklibVerif.Lemmas.ExprExact
 import TracklibVerif.Lemmas.ExprErr
-import TracklibVerif.Lemmas.ExprPre9
+import TracklibVerif.Lemmas.ExprPre10
 import TracklibVerif.Lemmas.ExprExt
 import TracklibVerif.Lemmas.ExprAgg
 import TracklibVerif.Lemmas.ExprFn
@@ -416,6 +416,17 @@ theorem operate_source_prime_value (tr : Tr α) (e : Sx) (v : Val α) (h : SrcOK
   rw [operate_source_value_tokens_prime tr e h hp]
   exact operateTokens_value tr _ v hw hn hnt hl hd
 
+/-- **T12 (a sign directly after a binary `+` or `-`: `a+-b`, `a--b`, `a++b`, `a-+b`)**: the last four replacements of
+`__unaryOp` merge two adjacent signs into the sign of their product. If `P o Q` is a printed source string (`pre` empty,
+or `lhs=`) in which `o` is a *binary* `+` or `-` (the character before it is neither `(` nor `{`), then typing the two
+signs `s1 s2` whose product is `o` (`SignPair`: `--` and `++` for `+`, `+-` and `-+` for `-`) in its place does not
+change what `operate` does (one pair per application). -/
+theorem operate_source_sign_pair (tr : Tr α) (pre : Str) (hp : PreOK pre) (e : Sx) (h : SrcOK e) (P Q : Str)
+    (s1 s2 o : Char) (hs : SignPair s1 s2 o) (hS : pre ++ src e = P ++ o :: Q)
+    (hP : ∃ P' c, P = P' ++ [c] ∧ c ≠ '(' ∧ c ≠ '{') :
+    operate tr (P ++ s1 :: s2 :: Q) = operate tr (pre ++ src e) :=
+  operate_sign_pair tr pre hp e h P Q s1 s2 o hs hS hP
+
 /-! ## non-vacuity -/
 
 /-- the laws are those of exact arithmetic: rationals with a NaN element satisfy them -/
@@ -589,5 +600,16 @@ example : operate trEx "a'*10".toList = (.ok (some [0, -10, 0]), trEx) := by
   exact h
 example : (operate trEx "c=a'*10+b".toList).2.feats = trEx.feats ++ [(['c'], [2, -8, 5])]
     ∧ (operate trEx "a''".toList).1.toOption = some (some [0, -1, 0]) := by decide +kernel
+
+/-- T12: `a+-b*2` is `a-b*2`, `c=a--b` is `c=a+b` -/
+def mEx : Sx := .bin '-' (.var ['a']) (.bin '*' (.var ['b']) (.num ['2']))
+example : operate trEx "a+-b*2".toList = operate trEx "a-b*2".toList := by
+  have h := operate_source_sign_pair trEx [] preOK_nil mEx (by simp only [mEx, SrcOK, NameOK]; decide) ['a'] "b*2".toList
+    '+' '-' '-' .pm (by decide +kernel) ⟨[], 'a', rfl, by decide, by decide⟩
+  have hs : ([] : Str) ++ src mEx = "a-b*2".toList := by decide +kernel
+  rw [hs] at h
+  exact h
+example : (operate trEx "a+-b*2".toList).1.toOption = some (some [-3, -6, -6])
+    ∧ (operate trEx "c=a--b".toList).2.feats = trEx.feats ++ [(['c'], [3, 0, 9])] := by decide +kernel
 
 end TV.C02
